@@ -14,6 +14,7 @@ import Driver.C07
 import Driver.C09
 import Driver.C14
 import Driver.C15
+import Driver.C20
 import Driver.C16
 import Driver.C10
 import Driver.C17
@@ -35,6 +36,7 @@ def dispatch (line : String) : String :=
   | "C09" :: r => Driver.C09.handle r
   | "C14" :: r => Driver.C14.handle r
   | "C15" :: r => Driver.C15.handle r
+  | "C20" :: r => Driver.C20.handle r
   | "C16" :: r => Driver.C16.handle r
   | "C10" :: r => Driver.C10.handle r
   | "C17" :: r => Driver.C17.handle r
